@@ -39,6 +39,9 @@ RunAgrees == (stage = "run" /\ Done(st)) => Load(Damaged(Doc, dmg)).phase = st.p
 \* ---- replay cases
 MapSet(f) == {<<k, f[k]>> : k \in DOMAIN f}
 OutJ(o) == IF o = None THEN [v |-> "refused"] ELSE [v |-> "model", frame_map |-> MapSet(o[1].frame_map), keyed |-> MapSet(o[1].frame_map_with_key)]
-EmitDoc == (Emit /\ stage = "doc") => PrintT(<<"REPLAY", ToJson([mode |-> "load", files |-> Doc, expect |-> OutJ(Intended(model))])>>)
+\* what the code and the machine do is among what the statement allows
+IntendedAccepted == stage = "doc" => Intended(model) \in Accept(model)
+EmitDoc == (Emit /\ stage = "doc") => PrintT(<<"REPLAY", ToJson([mode |-> "load", files |-> Doc, expect |-> OutJ(Intended(model)),
+                                                                   accept |-> SetToSeq({OutJ(x) : x \in Accept(model)})])>>)
 EmitDamaged == (Emit /\ stage = "run" /\ Done(st)) => PrintT(<<"REPLAY", ToJson([mode |-> "damaged", files |-> Damaged(Doc, dmg), dmg |-> dmg, expect |-> [v |-> st.phase]])>>)
 =============================================================================
